@@ -17,6 +17,11 @@ def runtime_leg(chk, tier, seed):
         jobs.append(("valgrind", ["c03", seed * 1000 + 30 + s, nh // 8, 14]))
     for s in range(NCPU - 2 if thorough else 6):
         jobs.append(("miri", ["c03", seed * 1000 + 40 + s, 150 if thorough else 20, 12], 3000))
+    # the Rust-owned writer when the allocator refuses a growth (fault-injecting global allocator, one scenario per process: the
+    # legitimate outcome on a tree that uses `Vec::reserve` is the allocation-failure abort)
+    for cap0, pre in ((16, 5), (0, 0), (1, 1), (64, 64), (8, 40), (0, 3)):
+        for mode in ("debug", "asan", "valgrind", "miri"):
+            jobs.append((mode, ["c12-oom", cap0, pre]))
     results = rt.run_all(jobs)
     total = rt.judge(chk, results, "C03")
     return results, total
